@@ -96,7 +96,7 @@ def child_setup(shard):
         am = dict(zip(names, args)); am.update(kwargs)
         data, d = am["data"], am["d"]
         if np.isscalar(d) and d == 0:
-            if res is not data and not res.identical(data):
+            if res is not data and not _same_image(res, data, {k: am.get(k) for k in ("medium_index", "illum_wavelen")}):
                 out.append(("zero_identity", "propagate(x, 0) is not x"))
             return out
         for c in ("x", "y"):
@@ -152,6 +152,23 @@ def _image(case, rng, spacing=(0.1, 0.13), optics=True):
     elif case.get("layout") == "xyz":
         im = im.transpose("x", "y", "z")         # the order in which propagate() returns its result
     return im
+
+
+def _same_image(a, b, overrides=None):
+    """a is the image b: same name, dimensions, coordinates, values and metadata -- except that optics handed to the call
+    (medium_index, illum_wavelen) are what the result carries"""
+    from vf.monitors import digest
+    if a is b:
+        return True
+    if a.dims != b.dims or a.name != b.name or not np.array_equal(a.values, b.values) or set(a.coords) != set(b.coords):
+        return False
+    if any(not np.array_equal(a[c].values, b[c].values) for c in a.coords):
+        return False
+    want = dict(b.attrs)
+    for k, v in (overrides or {}).items():
+        if v is not None and k in ("medium_index", "illum_wavelen"):
+            want[k] = v
+    return set(a.attrs) == set(want) and all(digest(a.attrs[k]) == digest(want[k]) or (np.ndim(want[k]) == 0 and np.ndim(a.attrs[k]) == 0 and a.attrs[k] == want[k]) for k in want)
 
 
 def run_case(case):
@@ -236,9 +253,9 @@ def _run_prop(case):
     flags["result_dims"] = bool(set(r1.dims) == {"x", "y", "z"} and r1.sizes["z"] == 1 and float(r1.z.values[0]) == d1)
     # zero
     z0 = P(im, 0)
-    flags["zero_scalar_identity"] = bool(z0.identical(im))
+    flags["zero_scalar_identity"] = bool(_same_image(z0, im, kw_arg))
     z0f = P(im, 0.0)
-    flags["zero_float_identity"] = bool(z0f.identical(im))
+    flags["zero_float_identity"] = bool(_same_image(z0f, im, kw_arg))
     # additivity
     r12 = P(r1, d2)
     rsum = P(im, d1 + d2)
@@ -284,6 +301,36 @@ def _run_prop(case):
         worst = max(worst, relmax(zs[0].transpose("x", "y").values, im.isel(z=0).transpose("x", "y").values))
     flags["stack0_shape"] = bool(ok)
     resid["stack@with_zero"] = fnum(worst)
+    # slice i of the stack is the propagation by the i-th distance, wherever zeros stand in the list and however many there are
+    worst, ok = 0.0, True
+    for lst_ in ([d1, 0.0, d2], [0.0, 0.0, d1], [d3, 0, d1, 0.0, d2], [0.0, d1], [0.0, 0.0]):
+        try:
+            st_ = P(im, lst_)
+        except Exception as e:
+            ok = False
+            continue
+        if st_.sizes.get("z") != len(lst_) or not np.array_equal(np.asarray(st_.z.values, dtype=float), np.asarray(lst_, dtype=float)):
+            ok = False
+            continue
+        for i_, d_ in enumerate(lst_):
+            single = (im if d_ == 0 else P(im, d_)).isel(z=0).transpose("x", "y").values
+            worst = max(worst, relmax(st_.isel(z=i_).transpose("x", "y").values, single))
+    flags["stack_order_follows_list"] = bool(ok)
+    resid["stack@order"] = fnum(worst)
+    # a zero distance is a zero distance in every spelling, and optics handed to the call are taken on also then
+    try:
+        flags["zero_0d_array_identity"] = bool(_same_image(P(im, np.array(0.)), im, kw_arg) and _same_image(P(im, np.float64(0)), im, kw_arg))
+    except Exception:
+        flags["zero_0d_array_identity"] = False
+    zo = hp.propagate(im, 0, medium_index=1.07, illum_wavelen=0.4321)
+    flags["zero_distance_takes_given_optics"] = bool(float(zo.medium_index) == 1.07 and float(zo.illum_wavelen) == 0.4321 and np.array_equal(zo.values, im.values)
+                                                     and float(im.medium_index if im.medium_index is not None else -1) != 1.07)
+    # an image whose length-one z axis has been indexed away is the same image
+    try:
+        flat2d = P(im.isel(z=0), d1)
+        resid["stack@no_z_axis"] = relmax(flat2d.transpose(*r1.dims).values, r1.values)
+    except Exception:
+        flags["image_without_z_axis_propagates"] = False
     # cfsp
     rc = P(im, d1, cfsp=case["cfsp"])
     resid["cfsp"] = relmax(rc.transpose(*r1.dims).values, r1.values)
